@@ -416,7 +416,7 @@ def perparam_law(family, p0, x, N, findings, stats, tag):
     # The reported joint density is c(x) * prod_i law_i: C_i = c * prod_{j != i} law_j(frozen_j) and
     # pdf(frozen) = c * prod_j law_j(frozen_j), hence c(x) = prod_i C_i / pdf(frozen)^(n-1).
     # The Hastings factor is right iff c does not depend on the from-point (checked by the caller).
-    if all(c is not None for c in consts) and base > 0:
+    if all(c is not None and c[0] > 0 for c in consts) and base > 0:
         c_x = float(numpy.prod([c[0] for c in consts]) / base ** (n - 1))
         rel = sum(c[1] / c[0] for c in consts) * 1.5 + 2.0 * n / N + 1e-9
         stats['normaliser_estimates'] = stats.get('normaliser_estimates', 0) + 1
